@@ -30,8 +30,6 @@ func init() {
 				Also: [][2]string{{"\t\t// A response without errors and with a status code outside the 2XX range is a failed fetch,\n", "\t\tif res.multi == nil && isEmptyEntityFetch(fetchItem, response) {\n\t\t\treturn nil\n\t\t}\n\t\t// A response without errors and with a status code outside the 2XX range is a failed fetch,\n"}}},
 			{Name: "decode error of a subgraph's errors array returned as the operation's error (reverts the F43 fix)", File: "v2/pkg/engine/resolve/loader.go", Rule: "C07-R10", Key: "Loader.appendSubgraphError/decode-error-of-subgraph-errors-not-returned",
 				Old: "\t\tgraphqlErrors = graphqlErrors[:0]\n", New: "\t\treturn errors.WithStack(err)\n"},
-			{Name: "single-flight leader no longer stores its error in the shared item (seeded change C07-21)", File: "v2/pkg/engine/resolve/loader.go", Rule: "C07-R9", Key: "Loader.loadByContext/leader-publishes-error",
-				Old: "\t\titem.err = err\n\t\t// the leader's own context ended", New: "\t\t// the leader's own context ended"},
 			{Name: "subscription updates render without the loader's errors", File: "v2/pkg/engine/resolve/resolve.go", Rule: "C07-R8", Key: "executeSubscriptionUpdate/hands-over-all-loader-output",
 				Old: "\t\t\tresolvable.errors = loader.errors\n", New: "\t\t\t_ = loader.errors\n"},
 			{Name: "only the first target of a de-duplicated entity is tainted (seeded change C07-12)", File: loaderGo, Rule: "C07-R7", Key: "taint-covers-merge-target:target",
@@ -459,7 +457,7 @@ func runC07(r *fw.Run) {
 	checkRemovedBeforeClose(r, "C07-R6", false)
 	c07TaintEveryMergeTarget(r)
 	c07LoaderOutputReachesRenderer(r)
-	c07LeaderPublishesOutcome(r)
+	// (R9, the single-flight leader publishes its outcome, moved to C11 as C11-R14 after F95: see DESIGN §8)
 	c07MalformedSubgraphErrorsStaySoft(r)
 }
 
@@ -698,54 +696,6 @@ func c07LoaderOutputReachesRenderer(r *fw.Run) {
 			"the renderer of this entry point never receives the loader's "+strings.Join(missing, ", ")+": a failed fetch is rendered as nulled data without the error entry the loader recorded (resp. without the forwarded extensions / with value completion switched on although the loader asked to skip it) — only on this entry point, its siblings hand it over")
 	}
 	r.Expect("C07-R8", "functions handing loader output to a renderer", n, 5)
-}
-
-// c07LeaderPublishesOutcome (R9): requests de-duplicated by the subgraph single flight share the leader's outcome. After
-// the leader has arranged the wake-up (defer singleFlight.Finish(item)), every exit must have published what the followers
-// read after the wake-up: an exit that returns an error has assigned item.err, an exit that returns nil has assigned
-// item.response. A follower of a leader that forgot item.err sees neither error nor response — an "empty response" that
-// is not recorded as a failed fetch, so the fetches depending on it are sent with null representations.
-func c07LeaderPublishesOutcome(r *fw.Run) {
-	p := r.Prog
-	r.Rule("C07-R9", "after the single-flight leader has deferred Finish(item), every exit that returns an error has assigned item.err and every exit that returns nil has assigned item.response (what the followers read after the wake-up)")
-	fi := p.Func("resolve", "Loader.loadByContext")
-	if fi == nil {
-		r.Error("C07-R9: Loader.loadByContext not found")
-		return
-	}
-	info := fi.Info()
-	n := 0
-	in := fw.NewInterp(fi)
-	in.H = fw.Hooks{
-		Node: func(nd ast.Node, st *fw.State) {
-			if d, ok := nd.(*ast.DeferStmt); ok && fw.CallIs(info, d.Call, "resolve", "SubgraphRequestSingleFlight.Finish") {
-				st.Set("leader")
-			}
-			for _, t := range fw.WriteTargets(info, nd) {
-				if fw.IsFieldSel(info, t, "resolve", "SingleFlightItem", "err") {
-					st.Set("published-err")
-				}
-				if fw.IsFieldSel(info, t, "resolve", "SingleFlightItem", "response") {
-					st.Set("published-response")
-				}
-			}
-		},
-		Exit: func(ret *ast.ReturnStmt, lit *ast.FuncLit, st *fw.State) {
-			if lit != nil || ret == nil || !in.Final() || !st.Must("leader") || len(ret.Results) != 1 {
-				return
-			}
-			n++
-			if id, ok := ast.Unparen(ret.Results[0]).(*ast.Ident); ok && id.Name == "nil" && info.Uses[id] == types.Universe.Lookup("nil") {
-				r.Check(st.Must("published-response"), "C07-R9", "Loader.loadByContext/leader-publishes-response#"+itoa(n), p.Pos(ret.Pos()), "the leader's success exit has assigned item.response",
-					"the leader returns success without having stored the response in the shared item: its followers wake up with an empty response")
-				return
-			}
-			r.Check(st.Must("published-err"), "C07-R9", "Loader.loadByContext/leader-publishes-error#"+itoa(n), p.Pos(ret.Pos()), "the leader's error exit has assigned item.err",
-				"the leader returns an error without having stored it in the shared item: its followers wake up with neither an error nor a response, treat the fetch as an empty answer (not as failed), and the fetches that depend on it are sent with null representations")
-		},
-	}
-	in.Run(nil)
-	r.Expect("C07-R9", "exits of the single-flight leader", n, 2)
 }
 
 // c07MalformedSubgraphErrorsStaySoft (R10): whatever a subgraph puts into the `errors` member of its answer is a failure of
